@@ -85,3 +85,45 @@ def run_schedule(schedule, jobs):
     for t in threads:
         t.join(timeout=30)
     return results, sched.desync
+
+
+class LineScheduler(Scheduler):
+    """parks a thread before EVERY line of generated code (frames whose file is "<string>"): a schedule entry lets the named
+    thread execute one such line.  Used with seeded random schedules for the lock-free registries of generated dispatchers."""
+
+    def tracer(self, tid):
+        sched = self
+
+        def local(frame, event, arg):
+            if event == "line":
+                sched.wait_turn(tid)
+            return local
+
+        def glob(frame, event, arg):
+            if event == "call" and frame.f_code.co_filename == "<string>":
+                return local
+            return None
+        return glob
+
+
+def run_line_schedule(schedule, jobs):
+    sched = LineScheduler(schedule)
+    results = {}
+
+    def body(tid, fn):
+        sys.settrace(sched.tracer(tid))
+        try:
+            try:
+                results[tid] = ("ok", fn())
+            except Exception as e:  # noqa: BLE001
+                results[tid] = ("exc", f"{type(e).__name__}: {e}"[:200])
+        finally:
+            sys.settrace(None)
+            sched.finish(tid)
+
+    threads = [threading.Thread(target=body, args=(tid, fn)) for tid, fn in jobs.items()]
+    for t in threads:
+        t.start()
+    for t in threads:
+        t.join(timeout=30)
+    return results, sched.desync
